@@ -20,6 +20,7 @@ RANK_REL = 1e-10
 def svd_cases(draw, tier, size=None):
     lo, hi = size or (1, 6 if tier == "quick" else 8)
     m, n = draw(st.integers(lo, hi)), draw(st.integers(lo, hi))
+    m, n = draw(gen.maybe_high_aspect(m, n))
     k = min(m, n)
     src = draw(st.sampled_from(["spectrum", "spectrum", "spectrum", "pattern", "zero"]))
     if src == "spectrum":
@@ -36,6 +37,22 @@ def svd_cases(draw, tier, size=None):
     # overall magnitude: the property is scale free, absolute thresholds in the code are not
     e = draw(st.sampled_from([0, 0, 0, 0, -20, -13, -8, 8, 13, -100, 100]))
     return {"A": np.ascontiguousarray(A * 10.0 ** e), "kind": kind, "R": R, "scale_exp": e}
+
+
+@st.composite
+def completion_cases(draw, tier):
+    """Dense Gaussian (PRNG) non-square inputs of the shapes where the full factors' completion columns are reliable
+    in the clean library (see check_svd): |m - n| >= 2 and 4 max >= floor(11/6 * 4 min)."""
+    small = draw(st.integers(1, 12 if tier == "quick" else 20))
+    lo = max(small + 2, -(-int(4 * small * 11 / 6) // 4))
+    big = draw(st.integers(lo, lo + (12 if tier == "quick" else 24)))
+    rng = np.random.RandomState(draw(gen.seeds()))
+    A = rng.standard_normal((big, small, 4))
+    if draw(st.booleans()):
+        A = np.ascontiguousarray(np.swapaxes(A, 0, 1))
+    e = draw(st.sampled_from([0, 0, 0, -8, 8, -100, 100]))
+    return {"A": np.ascontiguousarray(A * 10.0 ** e), "kind": "gaussian_dense", "R": draw(st.integers(1, small)),
+            "scale_exp": e, "gaussian_dense": True}
 
 
 @st.composite
@@ -91,12 +108,24 @@ def check_svd(case):
     Aq = Q(A)
     h0 = ahash(Aq)
 
+    # Known finding KF-C05-1 (columns reaching into a null space of dimension >= 2 are not orthonormal) does NOT occur
+    # for DENSE FULL-RANK inputs of the shapes where LAPACK's gesdd takes its QR-first path, 4 max(m,n) >=
+    # floor(11/6 * 4 min(m,n)): there the trailing columns come out quaternion-structured and the clean library is
+    # orthonormal to u*cond (12000 random inputs up to 40 x 40, cond up to 1e12, scales 1e+-100: no exception).  That
+    # class is judged without exemption, so the completion columns of the full factors are not a blind spot.
+    big, small = max(m, n), min(m, n)
+    # (Dense is not enough: a 6 x 2 product of two reflectors and a diagonal fails in the clean library, so the class is
+    # restricted to the PRNG-Gaussian inputs of the clause qsvd_full_completion_columns, which is what was validated.)
+    null_cols_reliable = bool(case.get("gaussian_dense")) and c["rank"] == k and 4 * big >= int(4 * small * 11 / 6)
+    if abs(m - n) >= 2 and null_cols_reliable:
+        out.label("full_factor_completion_columns_judged")
+
     def orth_tags(side, ncols):
         t = []
         if c["rep"]:
             t.append("rep_nonzero")
         null = c["left_null"] if side == "U" else c["right_null"]
-        if null >= 2 and ncols > c["rank"]:
+        if null >= 2 and ncols > c["rank"] and not null_cols_reliable:
             t.append("multi_null_columns")
         return tuple(t)
 
@@ -183,6 +212,8 @@ PROPERTY = Property(
     title="Q-SVD: true singular values, unitary factors, exact and optimal reconstruction",
     rule="min(m,n) >= 2 and (a repeated non-zero singular value, or >= 2 zero singular values, or m != n)",
     clauses=[Clause("qsvd", check_svd, strategy=svd_cases, budget={"quick": 1500, "thorough": 20000}),
+             Clause("qsvd_full_completion_columns", check_svd, strategy=completion_cases,
+                    budget={"quick": 120, "thorough": 2000}, shrink=False),
              Clause("qsvd_moderate_size", check_svd, strategy=lambda tier: svd_cases(tier, size=(9, 20 if tier == "quick" else 40)),
                     budget={"quick": 40, "thorough": 400}, shrink=False),
              Clause("qsvd_long_dimension", check_svd, strategy=long_svd_cases, budget={"quick": 32, "thorough": 320},
